@@ -13,12 +13,13 @@ Section Sound.
   Variable mut : nat -> tree -> tree.
   Variable cond_tree : nat -> tree -> bool.
   Variable cond_cache : nat -> cache -> bool.
+  Variable bound : nat -> tree -> nat.
 
   (* the two laws of the shape dataclass <-> element conversion *)
   Hypothesis populate_flush : forall t c, populate (flush t c) = c.
   Hypothesis flush_flush : forall t c c', flush (flush t c) c' = flush t c'.
 
-  Notation run := (run tree cache populate flush edit mut cond_tree cond_cache).
+  Notation run := (run tree cache populate flush edit mut cond_tree cond_cache bound).
   Notation abs := (abs tree cache flush).
   Notation state := (state tree cache).
 
@@ -39,7 +40,7 @@ Section Sound.
 
   Lemma pure_run k : pure_sk k = true -> forall s, fst (run k s) = s.
   Proof.
-    induction k as [rr|k IHk|k IHk|n k IHk|n k IHk|k IHk|n k1 IHk1 k2 IHk2|n k1 IHk1 k2 IHk2|k1 IHk1 k2 IHk2];
+    induction k as [rr|k IHk|k IHk|n k IHk|n k IHk|k IHk|n k1 IHk1 k2 IHk2|n k1 IHk1 k2 IHk2|k1 IHk1 k2 IHk2|n body IHbody k IHk];
       cbn [pure_sk]; intro H; try discriminate; intro s; cbn [run].
     - reflexivity.
     - apply andb_true_iff in H. destruct H. destruct (cond_tree n (fst s)); auto.
@@ -50,7 +51,7 @@ Section Sound.
   Theorem wf_sound k : forall r L E,
     wf r k = true -> related r L E -> abs (fst (run k L)) = abs (fst (run k E)).
   Proof.
-    induction k as [rr|k IHk|k IHk|n k IHk|n k IHk|k IHk|n k1 IHk1 k2 IHk2|n k1 IHk1 k2 IHk2|k1 IHk1 k2 IHk2];
+    induction k as [rr|k IHk|k IHk|n k IHk|n k IHk|k IHk|n k1 IHk1 k2 IHk2|n k1 IHk1 k2 IHk2|k1 IHk1 k2 IHk2|n body IHbody k IHk];
       intros r L E Hwf Hrel; cbn [wf] in Hwf; cbn [run].
     - (* Done *) cbn [fst]. eapply related_abs; eassumption.
     - (* Flush *) apply (IHk Same); [exact Hwf|]. destruct r; cbn [related] in *.
@@ -90,6 +91,8 @@ Section Sound.
     - (* IfHasCache *) destruct r; [discriminate| |]; apply andb_true_iff in Hwf; destruct Hwf as [H1 H2].
       + destruct Hrel as [t [c0 [c [-> ->]]]]. cbn [snd]. apply (IHk1 Lag); [assumption|]. exists t, c0, c; split; reflexivity.
       + cbn [related] in Hrel. subst E. destruct (snd L); [apply (IHk1 Same)|apply (IHk2 Same)]; try assumption; reflexivity.
+    - (* While: only accepted once both runs coincide *)
+      destruct r; try discriminate. cbn [related] in Hrel. subst E. reflexivity.
   Qed.
 
   (* one operation, in place: running it on the cached object and then serialising equals running
@@ -105,7 +108,7 @@ Section Sound.
   (* copying form: the receiver's serialisation is unchanged and the copy is what the in-place form
      produces on the serialised object *)
   Corollary copy_ok k s :
-    let '(recv, res) := run_copy tree cache populate flush edit mut cond_tree cond_cache k s in
+    let '(recv, res) := run_copy tree cache populate flush edit mut cond_tree cond_cache bound k s in
     abs recv = abs s /\ res = fst (run k (abs s, None)).
   Proof.
     unfold run_copy. destruct s as [t [c|]]; cbn [fst abs]; split; reflexivity.
@@ -116,7 +119,7 @@ Section Sound.
     match h with
     | [] => s
     | (k, true) :: r => run_lazy r (fst (run k s))
-    | (k, false) :: r => run_lazy r (snd (run_copy tree cache populate flush edit mut cond_tree cond_cache k s))
+    | (k, false) :: r => run_lazy r (snd (run_copy tree cache populate flush edit mut cond_tree cond_cache bound k s))
     end.
   Fixpoint run_reference (h : list (sk * bool)) (t : tree) : tree :=
     match h with
@@ -145,15 +148,16 @@ Section Fresh.
   Variable mut : nat -> tree -> tree.
   Variable cond_tree : nat -> tree -> bool.
   Variable cond_cache : nat -> cache -> bool.
-  Notation run_g := (run_g tree cache populate flush edit mut cond_tree cond_cache).
+  Variable bound : nat -> tree -> nat.
+  Notation run_g := (run_g tree cache populate flush edit mut cond_tree cond_cache bound).
   Notation hc := (has_cache tree cache).
 
   (* if the analysis accepts, a run never flushes, edits, reads or returns a stale cache *)
   Theorem fresh_sound k : forall s stale used,
     wf_fresh (hc s) stale k = true -> used = false ->
-    let '(_, stale', used') := run_g k s stale used in stale' = false /\ used' = false.
+    let '(_, stale', used', _) := run_g k s stale used in stale' = false /\ used' = false.
   Proof.
-    induction k as [rr|k IHk|k IHk|n k IHk|n k IHk|k IHk|n k1 IHk1 k2 IHk2|n k1 IHk1 k2 IHk2|k1 IHk1 k2 IHk2];
+    induction k as [rr|k IHk|k IHk|n k IHk|n k IHk|k IHk|n k1 IHk1 k2 IHk2|n k1 IHk1 k2 IHk2|k1 IHk1 k2 IHk2|n body IHbody k IHk];
       intros s stale used Hwf Hu; cbn [wf_fresh] in Hwf; cbn [run_g]; subst used; cbn [orb].
     - apply negb_true_iff in Hwf. split; [exact Hwf|reflexivity].
     - apply andb_true_iff in Hwf. destruct Hwf as [H1 H2]. apply negb_true_iff in H1. rewrite H1.
@@ -172,5 +176,18 @@ Section Fresh.
         destruct (cond_cache n c); [apply IHk1|apply IHk2]; try assumption; reflexivity.
       + apply IHk2; [exact Hwf|reflexivity].
     - destruct s as [t [c|]]; cbn [has_cache snd] in *; [apply IHk1|apply IHk2]; try assumption; reflexivity.
+    - (* While *)
+      repeat (apply andb_true_iff in Hwf; let H := fresh "Hw" in destruct Hwf as [Hwf H]).
+      rename Hwf into Hb0. rename Hw3 into Hk0. rename Hw2 into Hbf. rename Hw1 into Hbt. rename Hw0 into Hkf. rename Hw into Hkt.
+      assert (Hany_b : forall s', wf_fresh (hc s') false body = true) by (intro s'; destruct (hc s'); assumption).
+      assert (Hany_k : forall s', wf_fresh (hc s') false k = true) by (intro s'; destruct (hc s'); assumption).
+      generalize (bound n (fst s)). intro i. revert s stale Hb0 Hk0.
+      induction i as [|i IHi]; intros s stale Hb0 Hk0.
+      + apply IHk; [exact Hk0|reflexivity].
+      + specialize (IHbody s stale false Hb0 eq_refl).
+        destruct (run_g body s stale false) as [[[s' st'] u'] r']. destruct IHbody as [-> ->].
+        destruct r'; try (split; reflexivity).
+        * apply IHi; [apply Hany_b|apply Hany_k].
+        * apply IHk; [apply Hany_k|reflexivity].
   Qed.
 End Fresh.
